@@ -12,7 +12,7 @@ EXTENDS Naturals, Sequences, FiniteSets, TLC, Json
 
 ExpectedClass(entry) == IF entry = "style" THEN "CSSStyleDeclaration" ELSE "CSSStyleSheet"
 \* low polynomial: 1 s + 50 microseconds x n^2 (normal parses of the generated sizes take 0.3 - 3 ms)
-Budget(n) == 1000 + (n * n) \div 20
+Budget(n) == 1000 + (IF n > 40000 THEN (n \div 20) * n ELSE (n * n) \div 20)      \* (TLC integers are 32 bit: no n * n for long inputs)
 SoupFailing(r, o) ==
     IF o.parsed = "TIMEOUT" THEN "ReturnsInBoundedTime"
     ELSE IF o.parsed # "ok" THEN "ParseNeverRaises"
